@@ -44,6 +44,25 @@ def families(tier, seed):
     for tag, kw in scen:
         for vec in (True, False):
             out.append(dict(tag=tag, features=dict(vec_flag=vec), kind="grid", model=m, outputs=outs, vec=vec, **kw))
+    # two nodes built from ONE NodeTemplate object (no per-node overrides), the grid addresses only one of them
+    ms = gen.model([li], {"p1": dict(ops=["op"]), "p2": dict(ops=["op"])}, [E("p1/op/r", "p2/op/r_in", 1.5), E("p2/op/r", "p1/op/r_in", 0.5)])
+    for vec in (True, False):
+        out.append(dict(tag="G12-shared-node-template-one-target", features=dict(vec_flag=vec), kind="grid", model=ms, outputs=outs, vec=vec,
+                        grid={"tau1": [1.0, 2.0, 4.0], "k1": [-0.5, -1.0, 0.25]},
+                        param_map={"tau1": {"nodes": ["p1"], "vars": ["op/tau"]}, "k1": {"nodes": ["p2"], "vars": ["op/k"]}}))
+    # two plain edges converging on one input variable, six grid rows (twelve edges in one vectorised group), one weight swept
+    mc = gen.model([li], {"p1": dict(ops=["op"], over={"op/tau": 1.0}), "p2": dict(ops=["op"], over={"op/tau": 3.0}), "p3": dict(ops=["op"])},
+                   [E("p1/op/r", "p3/op/r_in", 1.5), E("p2/op/r", "p3/op/r_in", -0.5), E("p3/op/r", "p1/op/r_in", 0.7)])
+    for vec in (True, False):
+        out.append(dict(tag="G13-converging-edges-six-rows", features=dict(vec_flag=vec), kind="grid", model=mc, outputs=outs, vec=vec,
+                        grid={"w13": [0.5, 2.5, -1.0, 1.0, 0.2, -2.0], "tau3": [1.0, 2.0, 4.0, 0.5, 3.0, 1.5]},
+                        param_map={"w13": {"edges": [("p1/op/r", "p3/op/r_in")], "vars": ["weight"]}, "tau3": {"nodes": ["p3"], "vars": ["op/tau"]}}))
+    # the circuit handed over as the PATH of a YAML definition (grid_search / adapt_circuit load it themselves, once per row)
+    for vec in (True, False):
+        out.append(dict(tag="G10-circuit-as-yaml-path", features=dict(vec_flag=vec, as_path=True), kind="grid", model=m, outputs=outs, vec=vec,
+                        grid={"tau1": [1.0, 2.0, 4.0], "kk": [-0.5, -1.0, 0.25]}, param_map=node_map, as_path=True))
+        out.append(dict(tag="G11-yaml-path-edge-and-node", features=dict(vec_flag=vec, as_path=True), kind="grid", model=m, outputs=outs, vec=vec,
+                        grid={"w12": [0.5, 2.5, -1.0], "tau1": [1.0, 2.0, 4.0]}, param_map=edge_map, as_path=True))
     # a circuit whose edges are built from an EdgeTemplate (algebraic edge operator): node parameter and both edge weights swept
     eop = dict(name="eop", eqs=[["s_out", "alg", ["*", ["var", "gain"], ["call", "tanh", ["var", "pre"]]]]],
                vars={"s_out": ["output", 0.0], "pre": ["input", 0.0], "gain": ["const", 1.7]})
@@ -63,7 +82,8 @@ def main():
         rule="a two-node circuit with distinct per-node parameters; grids over node parameters (one and two targets per key), edge "
              "weights, mixed node+edge, a permuted 2x3 grid, a DataFrame grid with a shuffled index, a template passed as object with "
              "an edge attribute, an extrinsic input, two grid keys on different attributes (weight, delay) of one edge, two edges under one "
-             "key, a circuit whose edges are built from an EdgeTemplate; vectorize on and off; every row of the returned table against the spec trajectory "
+             "key, a circuit whose edges are built from an EdgeTemplate, the circuit given as the path of a YAML definition, two nodes sharing one NodeTemplate object with only one addressed, two edges "
+             "converging on one variable with six grid rows; vectorize on and off; every row of the returned table against the spec trajectory "
              "of the circuit with that row's values (rtol 1e-6), labels and table contents; distinct = (scenario, vectorize)",
         sample_of=lambda c: {k: v for k, v in c.items() if k not in ("features", "model")})
     driver.run_sequences(chk, "grid_search-vs-individual-runs-in-sequence", _cases, _results, cases.case_fn, site="C17/grid_search",
